@@ -27,7 +27,8 @@ type GenDoc struct {
 }
 
 type docGen struct {
-	r      *RNG
+	r      *RNG // structure
+	lr     *RNG // scalar literal values (two documents of one structure differ in these only)
 	w      *World
 	keys   map[string]string // response key -> signature
 	nAlias int
@@ -44,7 +45,12 @@ type docGen struct {
 
 // GenQueryDoc generates one query document. size bounds the number of fields.
 func GenQueryDoc(r *RNG, w *World, size int, condVars bool) GenDoc {
-	g := &docGen{r: r, w: w, keys: map[string]string{}, fragOn: map[string][]string{}, vars: map[string]interface{}{}, budget: size, condVars: condVars}
+	return GenQueryDoc2(r, NewRNG(r.Uint64()), w, size, condVars)
+}
+
+// GenQueryDoc2 draws the structure from r and the scalar literal values from lr.
+func GenQueryDoc2(r, lr *RNG, w *World, size int, condVars bool) GenDoc {
+	g := &docGen{r: r, lr: lr, w: w, keys: map[string]string{}, fragOn: map[string][]string{}, vars: map[string]interface{}{}, budget: size, condVars: condVars}
 	body := g.selection(w.Obj["Query"], 0, true)
 	head := ""
 	if len(g.decls) > 0 {
@@ -126,7 +132,7 @@ func (g *docGen) inputValue(t graphql.Input, argName string, host graphql.Type) 
 		}
 		return "[" + strings.Join(lits, ",") + "]", vals
 	case *graphql.Enum:
-		k := []string{"ALPHA", "BETA", "GAMMA"}[g.r.Intn(3)]
+		k := []string{"ALPHA", "BETA", "GAMMA"}[g.lr.Intn(3)]
 		return k, k
 	case *graphql.InputObject:
 		var lits []string
@@ -147,21 +153,18 @@ func (g *docGen) inputValue(t graphql.Input, argName string, host graphql.Type) 
 	case *graphql.Scalar:
 		switch tt.Name() {
 		case "Int":
-			v := g.r.Intn(4)
-			if argName == "n" {
-				v = g.r.Intn(4) // list lengths 0..3
-			}
+			v := g.lr.Intn(4) // (as "n": list lengths 0..3)
 			return fmt.Sprint(v), v
 		case "Float":
 			return "1.5", 1.5
 		case "Boolean":
-			b := g.r.Chance(50)
+			b := g.lr.Chance(50)
 			return fmt.Sprint(b), b
 		case "ID":
-			v := fmt.Sprintf("i%d", g.r.Intn(3))
+			v := fmt.Sprintf("i%d", g.lr.Intn(3))
 			return `"` + v + `"`, v
 		case "Stamp":
-			v := fmt.Sprintf("st%d", g.r.Intn(3))
+			v := fmt.Sprintf("st%d", g.lr.Intn(3))
 			return `"` + v + `"`, v
 		default: // String
 			if argName == "as" {
@@ -170,10 +173,10 @@ func (g *docGen) inputValue(t graphql.Input, argName string, host graphql.Type) 
 				if len(poss) == 0 {
 					poss = []string{"A"}
 				}
-				v := poss[g.r.Intn(len(poss))]
+				v := poss[g.lr.Intn(len(poss))]
 				return `"` + v + `"`, v
 			}
-			v := fmt.Sprintf("s%d", g.r.Intn(3))
+			v := fmt.Sprintf("s%d", g.lr.Intn(3))
 			return `"` + v + `"`, v
 		}
 	}
